@@ -8,6 +8,7 @@ use alloc::rc::Rc;
 use alloc::string::String;
 use alloc::string::ToString;
 use alloc::collections::btree_map::BTreeMap;
+#[cfg(test)]
 use core::ops::Deref;
 
 use chrono::{Duration, Timelike};
@@ -101,8 +102,9 @@ pub fn as_duration(config: &SmartCalcConfig, tokinizer: &Tokinizer, fields: &BTr
         };
 
         match fields.get("source") {
-            Some(token_info) => match token_info.token_type.borrow().deref()  {
-                Some(TokenType::Duration(duration)) => {
+            /* The source is a duration or a time, written out or held by a variable */
+            Some(_) => match (get_duration("source", fields), get_time("source", fields)) {
+                (Some(duration), _) => {
                     let seconds = duration.num_seconds().abs() as i64;
                     
                     return match constant_type {
@@ -114,7 +116,7 @@ pub fn as_duration(config: &SmartCalcConfig, tokinizer: &Tokinizer, fields: &BTr
                         _ => return Err("Duration type not valid".to_string()) 
                     };
                 },
-                Some(TokenType::Time(time, _)) => {
+                (None, Some((time, _))) => {
                     let seconds = time.num_seconds_from_midnight() as i64;
                     
                     return match constant_type {
